@@ -198,7 +198,8 @@ def oracle(case, io, mo):
         r = sp.norm(io[1])
         if sp.dur(r) != sp.dur(t):
             if sp.has_sim(t):
-                return None  # known limitation F4: neighbours inside a simultaneity are simultaneous, their durations are summed
+                # known finding F4 (matched by `known`): neighbours inside a simultaneity are simultaneous, their durations are summed
+                return f"[F4] tie_by inside a simultaneity changed the duration from {sp.dur(t)} to {sp.dur(r)}"
             return f"tie_by changed the duration from {sp.dur(t)} to {sp.dur(r)}"
         return None
     return None
@@ -269,3 +270,7 @@ def neighbours(case):
         elif op[0] == "tie_by":
             out = [["op", case[1], ["tie_by", ["samekey", k], rm]] for k in (1, 2, 3) for rm in (0, 1)]
     return out + shrink(case)
+
+
+def known(f, case, msg, io):
+    return f.get("id") == "F4" and (msg or "").startswith("[F4]")
